@@ -212,6 +212,23 @@ class SessGen(object):
                 for a in idx:
                     if a["type"] == 1 and a["off"] < e["off"] < a["end"]:
                         b[a["off"] + 4:a["off"] + 8] = (cut - a["off"] - 8).to_bytes(4, "big")
+        elif kind == "itemcut":
+            # the failure sits exactly at the START of an announced batch item: the Batch Count announces more items
+            # than the frame holds, or the frame ends at an item boundary, or the 3 tag bytes of an item are not the
+            # Request Batch Item tag.  Ground truth: such a frame cannot be decoded (Batch Count items are announced).
+            items = [e for e in idx if e["depth"] == 1 and e["tag"] == 0x42000F]
+            cs = [e for e in idx if e["tag"] == 0x42000D and e["depth"] == 2]
+            if items and cs:
+                how = self.ch(["count", "boundary", "tag"])
+                if how == "count":
+                    b[cs[0]["off"] + 8:cs[0]["off"] + 12] = (len(items) + self.ch([1, 1, 2, 7, 1000])).to_bytes(4, "big")
+                elif how == "boundary":
+                    j = r.randrange(len(items))
+                    b = b[:items[j]["off"]]
+                else:
+                    j = r.randrange(len(items))
+                    b[items[j]["off"]:items[j]["off"] + 3] = self.ch([b"\x42\x00\x10", b"\x42\x00\x7b", b"\x42\x00\x79",
+                                                                   b"\x42\x00\x0e", b"\x54\x00\x0f", b"\x42\x01\x0f"])
         elif kind == "transparent":
             # Key Material given as a STRUCTURE holding the key in a Key byte string (transparent key material) in place
             # of the plain byte string; every enclosing length adjusted
